@@ -408,9 +408,7 @@ func c03Check(c c03Case) *Violation {
 			if gb.Fields.Topology != gts.Linear {
 				return viol("topology", "%s: a slice must be linear, got %s", name, gb.Fields.Topology)
 			}
-			if newLen == 0 {
-				return nil // empty window: "overlap" with an empty interval is not settled by the statement (see survival)
-			}
+
 			// reference clipping: per reference, the set of residues it covers
 			var want [][]int // per surviving reference: new positions (or nil for verbatim infos)
 			var verbatim []string
